@@ -146,6 +146,11 @@ func goEnv() []string {
 }
 
 func main() {
+	os.Setenv("PATH", "/opt/veriftools/go1.26.8/bin:"+os.Getenv("PATH"))
+	for _, kv := range []string{"GOFLAGS=-mod=mod", "GOPROXY=off", "GOSUMDB=off", "GOTOOLCHAIN=local"} {
+		k, v, _ := strings.Cut(kv, "=")
+		os.Setenv(k, v)
+	}
 	if len(os.Args) < 2 || os.Args[1] != "check" {
 		fmt.Fprintln(os.Stderr, "usage: symgo check -id <property> [-tier quick|thorough]")
 		os.Exit(2)
